@@ -461,6 +461,10 @@ _COMBINATORS = {
     _RES + "and_then": {"Ok": ("call", 1, True), "Err": ("wrap", "Err", ("payload",))},
     _RES + "or_else": {"Ok": ("wrap", "Ok", ("payload",)), "Err": ("call", 1, True)},
 }
+_COMBINATORS[_RES + "ok"] = {"Ok": ("wrap", "Some", ("payload",)), "Err": ("unit", "None")}
+_COMBINATORS[_RES + "err"] = {"Ok": ("unit", "None"), "Err": ("wrap", "Some", ("payload",))}
+_COMBINATORS[_OPT + "ok_or"] = {"Some": ("wrap", "Ok", ("payload",)), "None": ("wrap", "Err", ("arg", 1))}
+_COMBINATORS[_OPT + "filter"] = {"Some": ("filter", 1), "None": ("unit", "None")}
 _COMBINATORS["core::task::poll::Poll::<T>::map"] = {"Ready": ("wrap", "Ready", ("call", 1, True)), "Pending": ("unit", "Pending")}
 _COMBINATORS["core::bool::<impl bool>::then"] = {"false": ("unit", "None"), "true": ("wrap", "Some", ("call", 1, False))}
 _COMBINATORS["core::bool::<impl bool>::then_some"] = {"false": ("unit", "None"), "true": ("wrap", "Some", ("arg", 1))}
@@ -531,6 +535,8 @@ def _expand_combinators(facts, w, stack, budget):
                     ok = False
                 if act[0] == "unit" and (dty.get("k") != "adt" or dty.get("def") != _WRAP[act[1]][0]):
                     ok = False
+                if act[0] == "filter":
+                    act = ("call", act[1], True, "byref")
                 if act[0] != "call" or act[1] in fns:
                     continue
                 if act[1] >= len(t["args"]):
@@ -547,6 +553,11 @@ def _expand_combinators(facts, w, stack, budget):
                         continue
                     # a function of this crate passed by name (`.unwrap_or_else(far_future)`): a plain call in the arm
                     hb_ = facts.bodies.get(item.get("def") or "")
+                    if len(act) > 3 and ct is None:
+                        # the predicate of `filter`, any function passed by name (`Duration::is_zero`): a plain call on `&payload`
+                        fty_ = a["const"]["ty"] if "const" in a else w.locals[(a.get("move") or a.get("copy"))["l"]]["ty"]
+                        fns[act[1]] = ("fnitem", (item, fty_))
+                        continue
                     if ct is None and hb_ is not None and hb_.crate is body.crate and hb_.kind == "fn" and hb_.arg_count == (1 if act[2] else 0):
                         fty_ = a["const"]["ty"] if "const" in a else w.locals[(a.get("move") or a.get("copy"))["l"]]["ty"]
                         fns[act[1]] = ("fnitem", (item, fty_))
@@ -599,6 +610,24 @@ def _expand_combinators(facts, w, stack, budget):
                 w.blocks[cur]["stmts"].append({"k": "assign", "lhs": out_place, "rv": {"k": "agg", "ak": "adt", "def": adt_def, "variant": act[1], "vi": vi,
                                                                                       "fields": ["0"], "ops": [{"move": {"l": tmp, "p": []}}]}, "span": span})
                 return cur
+            if act[0] == "filter":
+                # Some(v) if pred(&v) => Some(v), otherwise None
+                pl_ = payload_op["move"]
+                pty_ = w.locals[pl_["l"]]["ty"]
+                rty_ = next((i for i, ty_ in enumerate(types) if ty_.get("k") == "ref" and not ty_.get("mut") and ty_.get("args") == [pty_]), None)
+                bty_ = next((i for i, ty_ in enumerate(types) if ty_.get("s") == "bool"), None)
+                rl_, bl_ = w.new_local(rty_ if rty_ is not None else pty_), w.new_local(bty_)
+                nb["stmts"].append({"k": "assign", "lhs": {"l": rl_, "p": []}, "rv": {"k": "ref", "bk": "shared", "place": {"l": pl_["l"], "p": []}}, "span": span})
+                cur = emit(cur, ("call", act[1], True), {"l": bl_, "p": []}, bty_, {"move": {"l": rl_, "p": []}})
+                adt_def, vi, _pi = _WRAP["Some"]
+                yes, no = new_block(), new_block()
+                w.blocks[yes]["stmts"].append({"k": "assign", "lhs": out_place, "rv": {"k": "agg", "ak": "adt", "def": adt_def, "variant": "Some", "vi": vi,
+                                                                                      "fields": ["0"], "ops": [payload_op]}, "span": span})
+                w.blocks[no]["stmts"].append({"k": "assign", "lhs": out_place, "rv": {"k": "agg", "ak": "adt", "def": _WRAP["None"][0], "variant": "None", "vi": _WRAP["None"][1],
+                                                                                     "fields": [], "ops": []}, "span": span})
+                w.blocks[cur]["term"] = {"k": "switch", "discr": {"move": {"l": bl_, "p": []}}, "targets": [["0", no]], "otherwise": yes, "span": span,
+                                         "inl": "combinator:filter"}
+                return yes
             kind, what = fns[act[1]]
             if kind == "ctor":
                 adt_def, vname, vi, fname = what
@@ -624,7 +653,7 @@ def _expand_combinators(facts, w, stack, budget):
             idx = new_block()
             arms[vn] = idx
             payload_op = None
-            needs_payload = any(a_[0] == "payload" or (a_[0] == "call" and a_[2]) for a_ in _actions(act))
+            needs_payload = any(a_[0] in ("payload", "filter") or (a_[0] == "call" and a_[2]) for a_ in _actions(act))
             if pi is not None and needs_payload:
                 pty = rty["args"][pi]
                 pv = w.new_local(pty)
